@@ -11,6 +11,7 @@ Case lines (see lean/ArvVerif/Driver/C18.lean for the protocol):
   legacy <id> <expect> <field> <mt>  rewriteSignatures on a 200 record                (driver leg)
   legacyraw reqerr|badjson|status:N  rewriteSignatures pass-through branches          (driver leg)
   lfetch <req> <local> <remotes> <order>   fetchRemoteCollectionByPDH with scripted HTTP peers (driver leg)
+  lfetchu <method> <cid> <uuid> <peer>     fetchRemoteCollectionByUUID with a scripted HTTP peer  (driver leg)
 """
 import hashlib
 import itertools
@@ -26,7 +27,7 @@ RULE = ("manifests from a small grammar (1-3 streams, 1-3 locators per stream, s
         "for <= 3 (quick) / <= 4 (thorough) of them; sequences of 2-5 requests through one Conn in which a remote "
         "first answers honestly and later with alterations of the same / another byte length; 2-4 remotes "
         "answering AT THE SAME MOMENT (one gate, staggers of 0-49 us, 120-300 rounds per scenario; at least two "
-        "of them with a matching manifest signed differently per remote); the legacy delegate "
+        "of them with a matching manifest signed differently per remote); the legacy by-PDH and by-UUID delegates "
         "with scripted HTTP peers; a get case is non-trivial when at least one backend "
         "returns a collection; distinct = distinct case line")
 ASSUMPTIONS = [
@@ -639,6 +640,44 @@ def _lfetch_cases(rng, tier, n_scen):
     return cases
 
 
+def _lfetchu_cases(rng, n):
+    """legacy by-UUID delegate: methods GET (mostly) / POST / PUT / DELETE / HEAD; UUID of a configured
+    remote, of a cluster without RemoteClusters entry, of the own cluster, or none; the remote answers
+    {self-consistent signed record, record with plain hints, tampered record (field of the original or of
+    the tampered text), status, transport error, hang}"""
+    cases = []
+    for i in range(n):
+        odd = rng.random() < 0.25
+        streams = _structure(rng, odd)
+        if rng.random() < 0.7:
+            streams = [(nm, [(h, s, []) for h, s, _ in locs], fs) for nm, locs, fs in streams]
+        cid = _cluster(rng)
+        rid = _cluster(rng)
+        while rid == cid:
+            rid = _cluster(rng)
+        method = rng.choice(["GET"] * 20 + ["POST", "PUT", "DELETE", "HEAD"])
+        uuid = rng.choice([_coll_uuid(rid, i)] * 14 + [_coll_uuid(cid, i), _coll_uuid(cid, i), ""])
+        k = rng.choice(["good", "good", "good", "good", "hinted", "tamper", "tamper", "field", "S404", "S500", "S401", "S403", "X", "H", "-"])
+        mt = _render(rng, streams, rng.choice(["all", "all", "some", "multi"]), odd)
+        if k == "good":
+            peer = _lreply("R", rid, i, spec_pdh(mt), mt)
+        elif k == "hinted":
+            st2 = [(nm, [(hh, ss, [_plain_hint(rng)]) for hh, ss, _ in locs], fs) for nm, locs, fs in streams]
+            m2 = _render(rng, st2, rng.choice(["none", "all"]), odd)
+            peer = _lreply("R", rid, i, spec_pdh(m2), m2)
+        elif k == "tamper":
+            t, _ = _tamper(rng, mt)
+            peer = _lreply("R", rid, i, rng.choice([spec_pdh(mt), spec_pdh(t), spec_pdh(t), spec_pdh(_scanlines_norm(t))]), t)
+        elif k == "field":
+            peer = _lreply("R", rid, i, "0" * 32 + "+0", mt)
+        elif k == "-":
+            peer = "-"
+        else:
+            peer = _lreply(k, rid, i)
+        cases.append(f"lfetchu {method} {hx(cid)} {hx(uuid)} {peer}")
+    return cases
+
+
 def generate(rng, tier):
     quick = tier == "quick"
     cases = []
@@ -652,6 +691,7 @@ def generate(rng, tier):
     cases += _lfetch_cases(rng, tier, 250 if quick else 4000)
     cases += _getseq_cases(rng, tier, 250 if quick else 5000)
     cases += _getrace_cases(rng, tier, 40 if quick else 400)
+    cases += _lfetchu_cases(rng, 200 if quick else 4000)
     return cases
 
 
@@ -686,6 +726,9 @@ def compare(case, impl, model):
             if any(amap[r][0] == "X" for r in order):
                 return impl in (model.replace("err 502", "err 404"), model.replace("err 404", "err 502"))
         return impl == model
+    if case.startswith("lfetchu "):
+        g = impl.split(" ")
+        return (" ".join(g[:-1]) if g[-1].startswith("src=") else impl) == model
     if case.startswith("getrace "):
         got, allowed = impl.split(" | "), model.split(" | ")
         return bool(impl) and model != "bad-op" and all(g in allowed for g in got)
@@ -837,6 +880,28 @@ def oracle(case, impl):
         if g[0] in ("unhandled", "localstatus"):
             return None
         return "unrecognised result " + impl[:100]
+    if f[0] == "lfetchu":
+        method, cid, uuid = f[1], unhx(f[2]), unhx(f[3])
+        peer = None if f[4] == "-" else _parse_lfetch("lfetch - " + f[4] + " - -")[1]
+        g = impl.split(" ")
+        if "leak=1" in g:
+            return "a request to a backend was still outstanding after the legacy by-UUID delegate returned"
+        if g[0] in ("queried-unlisted-host", "unhandled-but-active", "remote-status-not-forwarded-verbatim", "undecodable-output"):
+            return "legacy by-UUID delegate misbehaves: " + impl
+        if g[0] == "ok":
+            out = unhx(g[1])
+            src_uuid = unhx(g[-1][4:]) if g[-1].startswith("src=") else None
+            if peer is None or peer[0] != "R" or peer[1] != src_uuid:
+                return "legacy by-UUID delegate returned a collection that the remote did not send"
+            if method != "GET" or uuid[:5] == cid:
+                return "legacy by-UUID delegate relayed a remote collection for a request that is not a GET of another cluster's UUID"
+            why = only_sig_diff(peer[3], out, uuid[:5])
+            if why:
+                return f"legacy by-UUID delegate: relayed manifest differs from what remote {uuid[:5]} sent in more than +A -> +R{uuid[:5]}-: " + why
+            return None
+        if g[0] in ("unhandled", "status", "err"):
+            return None
+        return "unrecognised result " + impl[:100]
     if f[0] == "legacyraw":
         ok = {"reqerr": "reqerr", "badjson": "err json"}
         want = ok.get(f[1]) or ("pass " + f[1].split(":")[1])
@@ -924,6 +989,13 @@ def finding_of(case, impl, why):
             if norm != a[3] and spec_pdh(norm) == req and only_sig_diff(norm, out, rid) is None:
                 return "F18c"
         return None
+    if f[0] == "lfetchu" and impl.startswith("ok ") and f[4].startswith("R:"):
+        sent = unhx(f[4].split(":")[3])
+        out = unhx(impl.split(" ")[1])
+        norm = _scanlines_norm(sent)
+        if "differs from what remote" in why and norm != sent and only_sig_diff(norm, out, unhx(f[3])[:5]) is None:
+            return "F18c"
+        return None
     if f[0] == "legacy" and impl.startswith("ok "):
         rid, expect, field, mt = unhx(f[1]), unhx(f[2]), unhx(f[3]), unhx(f[4])
         out = unhx(impl.split(" ")[1])
@@ -951,7 +1023,7 @@ def nontrivial_key(case, impl):
         return case if len(f[-1]) > 66 else None
     if f[0] == "legacy":
         return case if len(f[-1]) > 66 else None
-    if f[0] == "lfetch":
+    if f[0] in ("lfetch", "lfetchu"):
         return case if "R:" in case else None
     if f[0] in ("getseq", "getrace"):
         return case
@@ -964,7 +1036,7 @@ def describe(cases, impl):
          "get_client_cancel": 0, "get_fanout": 0, "get_winner_not_first_in_order": 0,
          "legacy_results": {}, "rw_changed": 0, "lfetch_results": {}, "lfetch_client_cancel": 0,
          "lfetch_winner_not_first_in_order": 0, "getseq_requests": 0, "getseq_results": {},
-         "getrace_rounds": 0, "getrace_distinct_outcomes": {}, "getrace_matching_remotes": {}}
+         "lfetchu_results": {}, "getrace_rounds": 0, "getrace_distinct_outcomes": {}, "getrace_matching_remotes": {}}
     for c, r in zip(cases, impl):
         f = c.split(" ")
         d["ops"][f[0]] = d["ops"].get(f[0], 0) + 1
@@ -1001,6 +1073,10 @@ def describe(cases, impl):
                 d["getseq_requests"] += 1
                 k = " ".join(seg.split(" ")[:2]) if seg.startswith("err") else seg.split(" ")[0]
                 d["getseq_results"][k] = d["getseq_results"].get(k, 0) + 1
+        elif f[0] == "lfetchu":
+            g = r.split(" ")
+            k = g[0] + ((" " + g[1]) if g[0] in ("err", "status") else "")
+            d["lfetchu_results"][k] = d["lfetchu_results"].get(k, 0) + 1
         elif f[0] == "getrace":
             d["getrace_rounds"] += int(f[3])
             k = str(len(r.split(" | ")))
@@ -1058,6 +1134,11 @@ def neighbours(case, rng):
         # repeat the sequence, and repeat its last request once more
         out.append(" ".join(f[:2] + [str(2 * n)] + f[3:] + f[3:]))
         out.append(" ".join(f[:2] + [str(n + 1)] + f[3:] + f[3 + 5 * (n - 1):]))
+    elif f[0] == "lfetchu" and f[4].startswith("R:"):
+        p = f[4].split(":")
+        for _ in range(4):
+            t, _k = _tamper(rng, unhx(p[3]))
+            out.append(" ".join(f[:4] + [":".join(p[:2] + [hx(spec_pdh(t)), hx(t)])]))
     elif f[0] == "getrace":
         # more rounds; remotes listed in reverse (another remote gets the stagger first)
         out.append(" ".join(f[:3] + [str(2 * int(f[3]))] + f[4:]))
